@@ -647,6 +647,7 @@ func taskScheduleHandler() {
 				t.overtime = false
 				scheduleLock.Unlock()
 
+				verifPoint("tasks.sched.run", t.name)
 				t.runWithLocking()
 			} else {
 				// place in front of prioritized queue
